@@ -597,6 +597,13 @@ def family_table(ctx, f, fn, rows, label=None, invariant=()):
 
 def run(ctx):
     f = ctx.facts()
+
+    # the read accessors of MaxLenPrefix hand out the stored fields as they are (serialisers, Display and the RTR payload
+    # are written in terms of them: an accessor that "tidies" its answer changes what is written out)
+    for acc, fld in (("max_len", "max_len"), ("prefix", "prefix")):
+        K.check_returns_kept(ctx, f, "R-FLOW", A + "MaxLenPrefix::" + acc,
+                             "MaxLenPrefix::%s() returns the stored field unchanged" % acc,
+                             r"^self\.%s$" % fld, key="MaxLenPrefix::%s:returns-field" % acc)
     ctx.rule("R-REG", "outcome regions by abstract interpretation equal the spec table")
     ctx.rule("R-WHO", "construction sites of a type are exactly the confirmed ones")
     ctx.rule("R-GRD", "success requires the guard literal")
